@@ -25,11 +25,11 @@ def run(ctx):
     settings = [(3, 2), (1, 7), (2, 1)] if q else [(3, 2), (1, 7), (2, 1), (6, 3), (1, 1), (4, 1000)]
     for si, (mf, se) in enumerate(settings):
         for i, ops in enumerate(ops_all):
-            if (i + si + ctx.seed) % 3 == 0:
+            if (i + si + ctx.seed) % 6 == 0:
                 hists.append(dqlib.unit_history(len(hists), ops, mf, se, False))
     nshort = len(hists)
-    for i in range(ctx.pick(40, 600)):
-        hists.append(dqlib.random_history(rng, len(hists), rng.choice([100, 300] if q else [500, 2000]), False,
+    for i in range(ctx.pick(30, 200)):
+        hists.append(dqlib.random_history(rng, len(hists), rng.choice([100, 200] if q else [500, 1500]), False,
                                           unit_scaled=(i % 2 == 0), pool=pool))
     ctx.log("histories: %d exhaustive-short + %d random" % (nshort, len(hists) - nshort))
 
